@@ -489,6 +489,14 @@ type errGlobal struct {
 	Code string
 }
 
+// sameVarargs: is arr the backing array whose slice is passed as the variadic argument va?
+func sameVarargs(arr ssa.Value, va ssa.Value) bool {
+	if sl, ok := va.(*ssa.Slice); ok {
+		return sl.X == arr
+	}
+	return false
+}
+
 func (L *Loaded) scanErrorGlobals() {
 	L.errGlobals = map[*ssa.Global]errGlobal{}
 	L.constMaps = map[string]map[string]int64{}
@@ -553,6 +561,37 @@ func (L *Loaded) scanErrorGlobals() {
 						L.constMaps["G_"+sanitize(g.Pkg.Pkg.Name()+"_"+g.Name())] = m
 					}
 					if c, ok := in.Val.(*ssa.Call); ok {
+						if callee := c.Call.StaticCallee(); callee != nil && (callee.String() == "errors.New" || callee.String() == "fmt.Errorf") {
+							var wrapped *ssa.Global
+							if callee.String() == "fmt.Errorf" {
+								if fc, ok := c.Call.Args[0].(*ssa.Const); ok && fc.Value != nil && strings.Count(constant.StringVal(fc.Value), "%w") == 1 {
+									// the single %w operand: find the error-typed global among the variadic operands
+									for _, in2 := range b.Instrs {
+										if mi, ok := in2.(*ssa.MakeInterface); ok {
+											_ = mi
+										}
+										if st2, ok := in2.(*ssa.Store); ok {
+											if ia, ok := st2.Addr.(*ssa.IndexAddr); ok && sameVarargs(ia.X, c.Call.Args[1]) {
+												v := st2.Val
+												if ci, ok := v.(*ssa.ChangeInterface); ok {
+													v = ci.X
+												}
+												if mi, ok := v.(*ssa.MakeInterface); ok {
+													v = mi.X
+												}
+												if g2, ok := loadOf[v]; ok && wrapped == nil {
+													wrapped = g2
+												}
+											}
+										}
+									}
+								}
+							}
+							if L.newErrGlobals == nil {
+								L.newErrGlobals = map[*ssa.Global]*ssa.Global{}
+							}
+							L.newErrGlobals[g] = wrapped
+						}
 						if callee := c.Call.StaticCallee(); callee != nil && callee.Name() == "NewError" && len(c.Call.Args) == 3 {
 							m0, ok0 := c.Call.Args[0].(*ssa.Const)
 							c0, ok1 := c.Call.Args[1].(*ssa.Const)
